@@ -484,8 +484,13 @@ func TestVF_C09_Prepended(t *testing.T) {
 								continue // the list would hold only the initial event
 							}
 							for _, how := range []string{"json", "cbor"} {
-								for _, cp := range []bool{true, false} {
+								for cpi, cp := range []bool{true, false, true} {
+									listViaReuse = nil
+									if cpi == 2 {
+										listViaReuse = h.c.events[0 : b+1] // parsed into the same object before
+									}
 									el, ok := listViaP(h.c.events[c:d+1], how, nil, cp)
+									listViaReuse = nil
 									if !ok {
 										continue
 									}
